@@ -125,7 +125,7 @@ def handlePhase (st : DState) (op : String) (j : Json) : Except String (Ledger Ã
     let crow : List (VehicleId Ã— Rat) â† optField j "crow" []
     let fifo := if op == "update" then viol18Step env pre post ++ viol04Move env.isEmpty pre post ++ viol18Observed env st.joined pre post ++
       viol06Displacement pre post crow ++ viol06Stuck env.isEmpty pre post else []
-    let acct := if probe then [] else viol19Step pre post evs
+    let acct := (if probe then [] else viol19Step pre post evs) ++ (if op == "apply" then viol03Divert pre post else [])
     let mon := monitorAll env post ++ viol04 cap post ++ viol04Step pre post ++ viol04Plug isEl pre evs ++ viol05Step isEl pre post evs ++ single ++ indep ++ lv ++ fifo ++ acct
     pure (ledger', Json.mkObj [("diff", strs d), ("mon", strs mon)])
 
@@ -420,6 +420,9 @@ def handleRouter (j : Json) : Except String Json := do
   let queries : List RouterQuery â† getField j "queries"
   let snaps : List SnapObs â† getField j "snaps"
   let hqs : List HavQuery â† getField j "hqueries"
+  -- graphs that bring their own edge travel times (an osmnx export): the link table's length/speed
+  -- legitimately says something else, "fastest" is judged by the graph the search runs on
+  let ownTimes : Bool â† optField j "own_times" false
   let mut diffs : List String := []
   let mut mon : List String := []
   for qy in queries do
@@ -447,7 +450,7 @@ def handleRouter (j : Json) : Except String Json := do
   -- and speed give the travel time of the edge it was built from (else "fastest" by the graph is
   -- not fastest for the vehicles)
   for l in net do
-    if l.link.speed > 0 then
+    if l.link.speed > 0 && !ownTimes then
       let t := l.link.dist / l.link.speed * 3600
       if !(ratAbs (t - l.time) â‰¤ absTol l.time) then
         mon := mon ++ [s!"C14/link-table| link {l.u}-{l.v}: its length and speed in the link table give {Val.show (.q t)} s, the graph edge the search uses takes {Val.show (.q l.time)} s"]
